@@ -283,39 +283,13 @@ fn run_case(case: &str, wasm: &[u8], c3: &Cfg3, script: &str, ver: &str, with_co
             }
             // fixpoint: parse(out1).emit == out1
             if ok {
-                let cfg3 = mk_config(c3, None);
-                match out::catch(|| cfg3.parse(&outs[0])) {
-                    Ok(Ok(mut m3)) => match out::catch(|| m3.emit_wasm()) {
-                        Ok(b3) => {
-                            if b3 != outs[0] {
-                                ok = false;
-                                // one shape has a name of its own: the first output carries a
-                                // `.debug_line_str` section although it has no `.debug_line` (strings
-                                // of a line program that did not survive), the second drops it, and
-                                // nothing else differs
-                                let s1 = all_sections(&outs[0]);
-                                let s3 = all_sections(&b3);
-                                let orphan = s1.iter().all(|x| x.0 != "custom:.debug_line")
-                                    && s1.iter().filter(|x| x.0 != "custom:.debug_line_str").cloned().collect::<Vec<_>>() == s3;
-                                let key = if orphan { "C08:not-a-fixpoint-orphan-debug-line-str-dropped-by-second-round-trip" } else { "C08:not-a-fixpoint" };
-                                out::oracle(case, false, key, &format!("re-parsing walrus's output and emitting again changes it ({}) | only: {}", first_section_diff(&outs[0], &b3), wasm_hex_only));
-                            }
-                        }
-                        Err(p) => {
-                            ok = false;
-                            out::oracle(case, false, "C08:reemit-panic", &format!("emitting the re-parsed output panicked: {} | only: {}", p, wasm_hex_only));
-                        }
-                    },
-                    Ok(Err(e)) => {
-                        ok = false;
-                        out::oracle(case, false, "C08:output-rejected", &format!("walrus rejects its own output: {} | only: {}", e, wasm_hex_only));
-                    }
-                    Err(p) => {
-                        ok = false;
-                        out::oracle(case, false, "C08:reparse-panic", &format!("re-parsing the output panicked: {} | only: {}", p, wasm_hex_only));
-                    }
-                }
+                ok = fixpoint_of(case, c3, &outs[0], "", &wasm_hex_only);
             }
+        }
+        // … and what is emitted after a GC run is a fixpoint too (the pass leaves arenas with deleted
+        // entries behind, which a re-parse does not have)
+        if ok && script.contains('g') && script.ends_with('e') {
+            ok = fixpoint_of(case, c3, outs.last().unwrap(), " (the output emitted after a GC run)", &wasm_hex_only);
         }
         if ok {
             out::oracle(case, true, "", "");
@@ -422,6 +396,44 @@ fn run_case(case: &str, wasm: &[u8], c3: &Cfg3, script: &str, ver: &str, with_co
     }
 }
 
+/// re-parsing `bytes` (an output of walrus) and emitting again must reproduce them; reports and
+/// returns false otherwise
+fn fixpoint_of(case: &str, c3: &Cfg3, bytes: &[u8], what: &str, wasm_hex_only: &str) -> bool {
+    let cfg3 = mk_config(c3, None);
+    match out::catch(|| cfg3.parse(bytes)) {
+        Ok(Ok(mut m3)) => match out::catch(|| m3.emit_wasm()) {
+            Ok(b3) => {
+                if b3 != bytes {
+                    // one shape has a name of its own: the first output carries a
+                    // `.debug_line_str` section although it has no `.debug_line` (strings
+                    // of a line program that did not survive), the second drops it, and
+                    // nothing else differs
+                    let s1 = all_sections(bytes);
+                    let s3 = all_sections(&b3);
+                    let orphan = s1.iter().all(|x| x.0 != "custom:.debug_line")
+                        && s1.iter().filter(|x| x.0 != "custom:.debug_line_str").cloned().collect::<Vec<_>>() == s3;
+                    let key = if orphan { "C08:not-a-fixpoint-orphan-debug-line-str-dropped-by-second-round-trip" } else { "C08:not-a-fixpoint" };
+                    out::oracle(case, false, key, &format!("re-parsing walrus's output{} and emitting again changes it ({}) | only: {}", what, first_section_diff(bytes, &b3), wasm_hex_only));
+                    return false;
+                }
+                true
+            }
+            Err(p) => {
+                out::oracle(case, false, "C08:reemit-panic", &format!("emitting the re-parsed output{} panicked: {} | only: {}", what, p, wasm_hex_only));
+                false
+            }
+        },
+        Ok(Err(e)) => {
+            out::oracle(case, false, "C08:output-rejected", &format!("walrus rejects its own output{}: {} | only: {}", what, e, wasm_hex_only));
+            false
+        }
+        Err(p) => {
+            out::oracle(case, false, "C08:reparse-panic", &format!("re-parsing the output{} panicked: {} | only: {}", what, p, wasm_hex_only));
+            false
+        }
+    }
+}
+
 fn first_section_diff(a: &[u8], b: &[u8]) -> String {
     let sa = all_sections(a);
     let sb = all_sections(b);
@@ -463,6 +475,54 @@ struct Stats {
 }
 
 /// a module without local functions: imported functions, a memory, a global, exports, active data
+/// a module whose data and element segments are all passive and unreferenced: a GC run deletes
+/// every one of them, and what is emitted afterwards must not differ from what a re-parse of it emits
+fn dead_segments_module(rng: &mut Rng) -> Vec<u8> {
+    use wasm_encoder::*;
+    let mut m = Module::new();
+    let mut types = TypeSection::new();
+    types.function([], []);
+    m.section(&types);
+    let mut f = FunctionSection::new();
+    f.function(0);
+    m.section(&f);
+    let mut mem = MemorySection::new();
+    mem.memory(MemoryType { minimum: 1, maximum: None, memory64: false, shared: false, page_size_log2: None });
+    m.section(&mem);
+    let mut ex = ExportSection::new();
+    ex.export("run", ExportKind::Func, 0);
+    ex.export("memory", ExportKind::Memory, 0);
+    m.section(&ex);
+    let (nd, ne) = match rng.below(3) {
+        0 => (rng.range(1, 3), 0),
+        1 => (0, rng.range(1, 2)),
+        _ => (rng.range(1, 2), rng.range(1, 2)),
+    };
+    if ne > 0 {
+        let mut el = ElementSection::new();
+        for _ in 0..ne {
+            el.passive(Elements::Functions(&[0]));
+        }
+        m.section(&el);
+    }
+    if nd > 0 {
+        m.section(&DataCountSection { count: nd as u32 });
+    }
+    let mut code = CodeSection::new();
+    let mut func = Function::new([]);
+    func.instruction(&Instruction::End);
+    code.function(&func);
+    m.section(&code);
+    if nd > 0 {
+        let mut d = DataSection::new();
+        for _ in 0..nd {
+            d.passive((0..rng.range(1, 6)).map(|_| rng.next() as u8).collect::<Vec<u8>>());
+        }
+        m.section(&d);
+    }
+    m.finish()
+}
+
 fn no_code_module(rng: &mut Rng) -> Vec<u8> {
     use wasm_encoder::*;
     let mut m = Module::new();
@@ -558,6 +618,11 @@ pub fn main(seed: u64, tier: &str, only: Option<&str>) {
         if case % 6 == 5 {
             wasm = no_code_module(&mut rng);
         }
+        // … and some have nothing but dead passive segments for a GC run to delete
+        let dead_segments = case % 16 == 9;
+        if dead_segments {
+            wasm = dead_segments_module(&mut rng);
+        }
         // damaged inputs (before any DWARF is attached: what walrus does with damaged DWARF when the
         // switch is on is not this suite's subject)
         if rng.chance(1, 7) {
@@ -573,7 +638,7 @@ pub fn main(seed: u64, tier: &str, only: Option<&str>) {
                 }
             }
         }
-        let script = *rng.pick(&scripts);
+        let script = if dead_segments { *rng.pick(&["ge", "ege", "gee"]) } else { *rng.pick(&scripts) };
         c3.preserve = rng.chance(1, 2);
         nconfigs.insert((c3.skip_name, c3.skip_producers, c3.dwarf, c3.preserve, script));
         run_case(&format!("s{}", case), &wasm, &c3, script, &ver, true, &mut stats);
